@@ -743,6 +743,16 @@ def run_c13(ctx, tier, rnd, pool, design):
             sc = [dict(op="w", n=n) for n in _ragged(rnd, total, [4096, 100000])]
             groups.append((f"repeat-with-unit-size/{writer}",
                            [dict(base, id=f"c13-{i}-u", script=sc, chunk_size=rnd.choice([4096, 65536, 100000]), repeat=3, decode=False)]))
+    # repeated runs in one process on data whose encoding is sensitive to every tuning parameter (long hash chains / deep trees,
+    # default depth limits): state that survives from one encoder instance to the next shows up as differing digests
+    for i in range(8 if quick else 40):
+        writer = ["lzma2", "lzma1", "lzip", "xz"][i % 4]
+        opt = dict(dict=rnd.choice([4096, 65536, 1 << 20]), lc=3, lp=0, pb=2, mode=["fast", "normal"][(i // 2) % 2], mf=["hc4", "bt4"][i % 2],
+                   nice=rnd.choice([16, 32, 64, 273]), depth=0)
+        kw = dict(header=True, end_marker=True) if writer == "lzma1" else {}
+        base = E.mk_job(f"c13-rep-{i}", writer=writer, opt=opt, input=[E.seg(["lowent", "text", "mixed", "periodic"][i % 4], 70000 + 1000 * i, rnd.getrandbits(20))], **kw)
+        groups.append((f"repeat/{writer}", [dict(base, repeat=4, decode=False), dict(base, id=f"c13-rep-{i}-b", repeat=2, decode=False,
+                                                                                    script=[dict(op="w", n=30000)])]))
     jobs = [j for _, js in groups for j in js]
     t0 = time.time()
     results = E.run_jobs(jobs)
@@ -838,7 +848,7 @@ def c13_mt(ctx, tier, rnd, classes):
                 for workers in (1, 2, 3, 4):
                     for s in range(n_sched if workers > 1 else 2):
                         pol = {"kind": "random", "seed": rnd.getrandbits(40)} if s % 2 == 0 else {"kind": "pct", "seed": rnd.getrandbits(40), "depth": 1 + s % 3}
-                        scns.append({"id": f"c13-{fam}-{unit}-{workers}-{s}", "family": fam, "workers": workers, "unit_len": unit,
+                        scns.append({"id": f"c13-{fam}-{unit}-p{len(part)}x{part[0]}-w{workers}-{s}", "family": fam, "workers": workers, "unit_len": unit,
                                      "calls": calls, "data_class": cls, "seed": 4242 + unit, "policy": pol})
                         keys.append((fam, unit, cls))
     t0 = time.time()
